@@ -31,6 +31,16 @@ def expr(e):
         return "not %s" % operand(e["e"])
     if k == "neg":
         return "-%s" % operand(e["e"])
+    if k in ("listb", "setb"):
+        it = e["it"]
+        if it["k"] == "range":
+            r = "%s %s %s" % (operand(it["a"]), "..=" if it["incl"] else "..", operand(it["b"]))
+            if it["step"]["k"] != "absent":
+                r += " .. " + operand(it["step"])
+        else:
+            r = expr(it)
+        body = "%s | %s in %s%s" % (expr(e["e"]), e["n"], r, "".join(", " + expr(c) for c in e["cs"]))
+        return ("[%s]" if k == "listb" else "{%s}") % body
     if k == "lam":
         return "\\%s => %s" % (", ".join(params(e["ps"])), expr(e["e"]))
     if k == "ife":
